@@ -24,10 +24,43 @@ def scenarios(rng, tier):
     out.append(dict(w=192, h=128, n=20, decode=0, **{'f:enc_mode': 8, 'f:rate_control_mode': 1, 'f:target_bit_rate': 300000}))
     out.append(dict(w=192, h=128, n=9, decode=0, **{'f:enc_mode': 8, 'f:film_grain_denoise_strength': 8}))
     out.append(dict(w=192, h=128, n=9, decode=0, **{'f:enc_mode': 8, 'f:superres_mode': 1, 'f:superres_denom': 12, 'f:superres_kf_denom': 12}))
+    # frame OBUs whose payload is exactly 127 / 128 bytes: the one-byte / two-byte boundary of the leb128 size field (clips found by search;
+    # the run records how many boundary-sized OBUs it saw)
+    for (c, qp, hl) in ((2, 40, 4), (2, 36, 3), (0, 46, 4)):
+        out.append(dict(w=64, h=64, n=40, decode=0, content=c, **{'f:enc_mode': 8, 'f:qp': qp, 'f:hierarchical_levels': hl}))
     if tier == 'thorough':
         for p in (4, 6):
             out.append(dict(w=192, h=128, n=10, decode=0, **{'f:enc_mode': p}))
+        for (c, qp, hl) in ((8, 36, 4), (8, 50, 4), (0, 36, 4), (0, 44, 3), (1, 52, 3)):
+            out.append(dict(w=64, h=64, n=40, decode=0, content=c, **{'f:enc_mode': 8, 'f:qp': qp, 'f:hierarchical_levels': hl}))
     return out
+
+
+def boundary_obus(pkts_path):
+    """Number of OBUs in a .pkts file whose size field holds 127 / 128 / 16383 / 16384 (coverage statistic only)."""
+    import struct
+    cnt = {}
+    try:
+        d = open(pkts_path, 'rb').read()
+    except OSError:
+        return cnt
+    i = 0
+    while i + 12 <= len(d):
+        n = struct.unpack('<I', d[i:i + 4])[0]; p = d[i + 12:i + 12 + n]; i += 12 + n
+        j = 0
+        while j < len(p):
+            h = p[j]; k = j + 1 + ((h >> 2) & 1)
+            if not (h >> 1) & 1:
+                break
+            sz = 0; sh = 0
+            while k < len(p):
+                b = p[k]; sz |= (b & 127) << sh; sh += 7; k += 1
+                if not b & 128:
+                    break
+            if sz in (127, 128, 16383, 16384):
+                cnt[sz] = cnt.get(sz, 0) + 1
+            j = k + sz
+    return cnt
 
 
 def run(ck):
@@ -42,13 +75,15 @@ def run(ck):
         return
     scs = scenarios(ck.rng, ck.tier)
     res = e2e.run_many(binp, stamp, scs, timeout=120)
-    npk = 0; nbad = 0; sizes = {}; nhdr = 0
+    npk = 0; nbad = 0; sizes = {}; nhdr = 0; bnd = {}
     for a, r in zip(scs, res):
         ck.case(e2e.describe(a))
         if r['outcome'] != 'ok' or not r['hist']['hdr']:
             ck.violation('encode_%s:%s' % (r['outcome'].split('(')[0], e2e.describe({k: v for k, v in a.items() if k != 'decode'})), 'encode did not complete (%s): %s' % (r['outcome'], e2e.describe(a)), dict(scenario=a, cmd=r.get('cmd')), True)
             continue
         pk = scn.read_packets(r['prefix'] + '.pkts')
+        for k_, v_ in boundary_obus(r['prefix'] + '.pkts').items():
+            bnd[str(k_)] = bnd.get(str(k_), 0) + v_
         # reference = the sequence header OBU of the first packet (TD is 2 bytes); the one returned by
         # svt_av1_enc_stream_header is compared separately below
         first = pk[0][1] if pk else b''
@@ -74,7 +109,7 @@ def run(ck):
                     ck.violation('malformed_tu:' + v[2:40].replace(' ', '_'), 'packet %d (pts %d, %d bytes) of "%s" is not a well-formed temporal unit: %s' % (i, pts, len(b), e2e.describe(a), v[2:]),
                                  dict(scenario=a, packet_index=i, packet_hex=b.hex()[:4000], stream_header=r['hist']['hdr']['bytes'], reason=v[2:], cmd=r.get('cmd')), True)
     ck.cov['traces_validated_against_impl'] = npk
-    ck.cov['input_distribution'] = dict(scenarios=len(scs), packets=npk, packets_by_size_field_length=sizes)
+    ck.cov['input_distribution'] = dict(scenarios=len(scs), packets=npk, packets_by_size_field_length=sizes, obus_with_size_field_at_leb128_boundary=bnd)
     ck.cov['rule'] = 'picture sizes whose sequence header ends on / off a byte boundary, key frames every 6 frames, hierarchy depths 0..4, tiles, low QP noise (multi-byte size fields), open GOP, screen content, 10 bit, VBR, film grain, superres; every packet parsed'
     ck.sample(dict(scenario=e2e.describe(scs[1])))
     br = ck.broken_obligations()
